@@ -626,17 +626,20 @@ func (c *c03Ctx) evalSource(s *rsource, outer *renv) *rrel {
 }
 
 type rquery struct {
-	src    *rsource
-	where  *rex
-	sel    []*rex // select list (each with optional alias)
-	star   string // "" | "*" | "alias.*"
-	single bool   // exactly one source: order is specified
+	src       *rsource
+	where     *rex
+	sel       []*rex // select list (each with optional alias)
+	starUpper bool   // the qualifier of alias.* is written in upper case
+	star      string // "" | "*" | "alias.*"
+	single    bool   // exactly one source: order is specified
 }
 
 func (q *rquery) SQL() string {
 	with, from := q.src.SQL()
 	var sl []string
-	if q.star != "" {
+	if q.star != "" && q.starUpper {
+		sl = append(sl, strings.ToUpper(q.star)) // table names and aliases are not case sensitive
+	} else if q.star != "" {
 		sl = append(sl, q.star)
 	}
 	for i, e := range q.sel {
@@ -988,6 +991,7 @@ func genQueryC03(r *core.Rng) *rquery {
 	case 1:
 		if !merged["k"] {
 			q.star = als[r.Intn(len(als))].alias + ".*"
+			q.starUpper = r.P(35)
 		}
 	}
 	if merged["k"] {
